@@ -60,6 +60,8 @@ type IdPConfig struct {
 	// that only adds an unrelated context value and a response header
 	InterceptorIssuer  string       `json:"interceptor_issuer,omitempty"`
 	InterceptorNeutral bool         `json:"interceptor_neutral,omitempty"`
+	// IDPInsecure sets IdentityProviderConfig.Insecure (a field no code of the library reads)
+	IDPInsecure bool `json:"idp_config_insecure,omitempty"`
 	Organisation       *OrgSpec     `json:"organisation,omitempty"`
 	Contact            *ContactSpec `json:"contact,omitempty"`
 	ValidUntilSec      int          `json:"valid_until_sec,omitempty"`
@@ -170,6 +172,9 @@ type Spec struct {
 	LenientLookup bool `json:"lenient_lookup,omitempty"`
 	// KeysPerIssuer: the storage keeps one response-signing key per issuer (tenant) and picks it by the issuer in the context
 	KeysPerIssuer bool `json:"keys_per_issuer,omitempty"`
+	// RequireRequestScope (with IdP.InterceptorNeutral): the storage refuses every call whose context does not carry the value the
+	// application's interceptor put into the request context (it resolves its tenant from it)
+	RequireRequestScope bool `json:"require_request_scope,omitempty"`
 	// Tenants: records that exist for one issuer only, by the host of that issuer. A storage that serves several tenants looks
 	// service providers and users up under the issuer it finds in the context of the call: for a request made to a host listed
 	// here only that tenant's service providers and users exist (the same entity ID / login name may exist under several
